@@ -29,3 +29,13 @@ claim("C02", "model_checking",
       "numpy linear algebra; float cos/sin; palettes; ComplexSolution's fixed default resolution",
       "bounded-exhaustive enumeration of circuits x frequencies on the implementation against an exact reference model",
       "DESIGN.md section 4 C02")
+claim("C08", "model_checking",
+      "Every wave type x amplitude (either sign) x phase (several turns) x offset x period of the palettes and every harmonic order 0..N is evaluated: the closed-form amplitude/phase are compared with Gauss-Legendre quadrature of the library's own time function split at its breakpoints; a/b/c consistency, conjugate symmetry, Bessel/Parseval with a total-variation tail bound, lookup by name and pointwise agreement with a reference waveform on both sides of every breakpoint are judged for every configuration.",
+      "quadrature error < 1e-12; palettes for the continuous parameters",
+      "bounded-exhaustive enumeration of waveform configurations x harmonic orders on the implementation",
+      "DESIGN.md section 4 C08")
+claim("C09", "model_checking",
+      "Every base circuit x every mix of one to three sources from an alphabet that produces disjoint, bit-identical and within-resolution-only frequency coincidences x every w_max of the palette is analysed: the frequency list, every spectral line (against the exact phasor reference), the two-sided mirror, the time functions on a grid of instants, Kirchhoff's current law at every instant, superposition of the sources and reconstruction of an ideal periodic source's own waveform are judged for each.",
+      "numpy linear algebra; reference harmonics; library default resolution; w_max values whose harmonic inclusion depends on binary rounding are excluded",
+      "bounded-exhaustive enumeration of source mixes x w_max on the implementation against an exact reference and two-run relations",
+      "DESIGN.md section 4 C09")
